@@ -24,6 +24,9 @@ shims).  Directives:
           //@macro rule=E1 name=<anyhow|format|...> to=<<replacement>>   every `name!(...)`
                                  invocation is replaced (balanced parentheses)
           //@slice loop=<k> | closure=<k> ...   (see DESIGN section 4; used for loop units)
+          //@unit .. slice_closure=<<|a, $b|>>  the slice is the whole BODY of the closure literal with these
+                                 parameters (block contents, or the expression body); `//@head` payload goes
+                                 before the body, `//@tail` after it (group langclosures)
           //@forin rule=E14 find=<<for PAT in EXPR>> [var=<<name>>] [to=<<shim>>]   payload: invariant/decreases;
                                  `for PAT in EXPR { B }` => `let mut VAR = [shim(]EXPR[)]; loop <payload> { match
                                  VAR.next() { Some(PAT) => { B } None => { break; } } }` (Rust's definition of `for`)
@@ -976,6 +979,7 @@ def expand(group_path):
             sig_override = None
             wrapper = None
             tail = ''
+            head = ''
             while i < len(lines):
                 st2 = lines[i].strip()
                 if not st2.startswith('//@'):
@@ -995,6 +999,8 @@ def expand(group_path):
                     wrapper, i = payload_from(i + 1)
                 elif w2 == 'tail':
                     tail, i = payload_from(i + 1)
+                elif w2 == 'head':
+                    head, i = payload_from(i + 1)
                 elif w2 in ('edit', 'macro', 'dropcall', 'chain', 'closure', 'forlines', 'letchain', 'wrap', 'whilelet', 'forin', 'foridx', 'replaceslice', 'strslice'):
                     pl, i = payload_from(i + 1)
                     unit.ops.append((w2, parse_kv(r2), pl))
@@ -1010,6 +1016,51 @@ def expand(group_path):
             fs, ob, cb = find_fn(src, fname, impl_header)
             real = src[fs:cb + 1]
             sig, body = src[fs:ob], src[ob:cb + 1]
+            if 'slice_closure' in a:
+                # A slice that is the whole BODY of a closure literal: `slice_closure=<<|node, $s|>>` names the
+                # closure by its parameter list (wildcards allowed); the slice is the contents of the closure's
+                # block, or - for an expression body - the expression up to the `,` / `)` that ends the call
+                # argument. Independent of how the body begins, so a change of its first statement is verified
+                # instead of losing the anchor. `//@head` payload is placed before the body, `//@tail` after
+                # it (e.g. `let verif_r = {` ... `}; proof { .. } verif_r`).
+                sp = rustlex.find_tokens(body, a['slice_closure'])
+                if len(sp) != 1:
+                    raise ExtractError('%s: slice_closure `%s` found %d times' % (unit.id, a['slice_closure'], len(sp)))
+                mb = rustlex.mask(body)
+                k = sp[0][1]
+                while mb[k].isspace():
+                    k += 1
+                if mb[k] == '{':
+                    st, en = k + 1, rustlex.match_close(mb, k)
+                else:
+                    depth, j = 0, k
+                    while j < len(mb):
+                        ch = mb[j]
+                        if ch in '([{':
+                            depth += 1
+                        elif ch in ')]}':
+                            if depth == 0:
+                                break
+                            depth -= 1
+                        elif ch in ',;' and depth == 0:
+                            break
+                        j += 1
+                    st, en = k, j
+                if wrapper is None:
+                    raise ExtractError('%s: slice needs //@wrapper' % unit.id)
+                real = body[st:en]
+                body2 = apply_ops(unit, strip_vis_and_attrs(real), log)
+                gen = wrapper.rstrip('\n') + '\n{\n' + head + body2 + '\n' + tail + '}\n'
+                first = len(out) + 1
+                emit(gen)
+                units[unit.id] = (first, len(out), a['file'] + '::' + fnspec + ' [closure body]')
+                body_lines[unit.id] = first + wrapper.rstrip('\n').count('\n') + 1
+                log.append({'unit': unit.id, 'rule': 'SLICE', 'what': 'body of the closure `%s` of fn %s verified as a function of its parameters (head: `%s`)' % (
+                    a['slice_closure'], fnspec, ' '.join(head.split())[:80])})
+                diffs[unit.id] = ''.join(difflib.unified_diff(
+                    real.splitlines(True), gen.splitlines(True),
+                    'repo:' + a['file'] + '::' + fnspec + ' [closure body]', 'generated:' + unit.id, n=1))
+                continue
             if 'slice_from' in a:
                 # A slice: the statements from anchor `slice_from` through the end of the block
                 # statement that starts at anchor `slice_through` (a loop or an `if`), verified as a
